@@ -125,9 +125,15 @@ class Printer:
         if edge and st.get('eol'):
             self.emit('\n')
 
-    def endargs(self, ref):
-        if self.style.get('endarg') and ref is not None and ref[0] == 'n':
+    def endargs(self, ref, cont=False):
+        ea = self.style.get('endarg')
+        if cont and ea == 2:
+            ea = 1      # continuation tags repeat names only
+        if ea and ref is not None and ref[0] == 'n':
             return [ref[1]]
+        if ea == 2 and ref is not None and ref[0] == 'e':
+            # the end tag repeats the expression exactly as the start tag
+            return [_ref(ref, self.style)]
         return []
 
     # -- nodes
@@ -184,7 +190,7 @@ class Printer:
                          'open' if i == 0 else 'cont')
                 self.body(body)
             if els is not None:
-                self.tag('else', self.endargs(first), 'cont')
+                self.tag('else', self.endargs(first, True), 'cont')
                 self.body(els)
             self.tag('if', self.endargs(first), 'close')
         elif k == 'elseblk':
@@ -201,7 +207,7 @@ class Printer:
             self.tag('in', [_ref(ref, st)] + _opts(opts, st), 'open')
             self.body(body)
             if els is not None:
-                self.tag('else', self.endargs(ref), 'cont')
+                self.tag('else', self.endargs(ref, True), 'cont')
                 self.body(els)
             self.tag('in', self.endargs(ref), 'close')
         elif k == 'with':
